@@ -313,6 +313,61 @@ def check_generate_arith(ctx, thorough=False):
                         break
             except Exception as e:  # noqa: BLE001
                 ctx.violation('gadget.generate_raises', f'generate_equal({n},{num}) raised {err_name(e)}', input={'n': n, 'num': num})
+    # eleven and more inputs (the bare circuit's labels '0', '1', ..., '10', '11' no longer sort like numbers): sampled
+    import random as _random
+    srng = _random.Random(20260926)
+
+    def sample_rows(c, n_in, k=120):
+        for _ in range(k):
+            bits = tuple(srng.random() < 0.5 for _ in range(n_in))
+            yield bits, c.evaluate(list(bits))
+    for be in (False, True):
+        for n in (11, 12, 13):
+            ctx.case(json.dumps(['generate_sqrt_wide', n, be])); ctx.count('generate_wide')
+            try:
+                c = SQ.generate_sqrt(n, big_endian=be)
+                for bits, out in sample_rows(c, n):
+                    a = bits_value(bits, be)
+                    if bits_value(out, be) != math.isqrt(a):
+                        ctx.violation('sqrt.generate_value', f'generate_sqrt({n},big_endian={be}): a={a}: got {bits_value(out, be)}', input={'n': n, 'be': be, 'a': a})
+                        break
+            except Exception as e:  # noqa: BLE001
+                ctx.violation('gadget.generate_raises', f'generate_sqrt({n},big_endian={be}) raised {err_name(e)}', input={'n': n, 'be': be})
+        for n in (6, 7):
+            ctx.case(json.dumps(['generate_div_mod_wide', n, be])); ctx.count('generate_wide')
+            try:
+                c = DM.generate_div_mod(n, big_endian=be)
+                for bits, out in sample_rows(c, 2 * n):
+                    a, b = bits_value(bits[:n], be), bits_value(bits[n:], be)
+                    want = (a // b, a % b) if b else (0, 0)
+                    if (bits_value(out[:n], be), bits_value(out[n:], be)) != want:
+                        ctx.violation('divmod.generate_value', f'generate_div_mod({n},big_endian={be}): a={a}, b={b}', input={'n': n, 'be': be, 'a': a, 'b': b})
+                        break
+            except Exception as e:  # noqa: BLE001
+                ctx.violation('gadget.generate_raises', f'generate_div_mod({n},big_endian={be}) raised {err_name(e)}', input={'n': n, 'be': be})
+        for n, m in ((6, 6), (7, 5), (4, 8)):
+            ctx.case(json.dumps(['generate_sub_wide', n, m, be])); ctx.count('generate_wide')
+            try:
+                c = SB.generate_sub_two_numbers(n, m, big_endian=be)
+                for bits, out in sample_rows(c, n + m):
+                    a, b = bits_value(bits[:n], be), bits_value(bits[n:], be)
+                    if bits_value(out, be) != (a - b) % (1 << n):
+                        ctx.violation('sub.generate_value', f'generate_sub_two_numbers({n},{m},big_endian={be}): a={a}, b={b}', input={'n': n, 'm': m, 'be': be, 'a': a, 'b': b})
+                        break
+            except Exception as e:  # noqa: BLE001
+                ctx.violation('gadget.generate_raises', f'generate_sub_two_numbers({n},{m},big_endian={be}) raised {err_name(e)}', input={'n': n, 'm': m, 'be': be})
+    for n in (11, 12):
+        for num in (0, 4, 5, (1 << n) - 1, 1 << (n - 1), 1234):
+            ctx.case(json.dumps(['generate_equal_wide', n, num])); ctx.count('generate_wide')
+            try:
+                c = EQ.generate_equal(n, num)
+                probes = [tuple(bool((num >> i) & 1) for i in range(n))] + [bits for bits, _ in sample_rows(c, n, 40)]
+                for bits in probes:
+                    if c.evaluate(list(bits)) != [bits_value(bits, False) == num]:
+                        ctx.violation('equal.generate_value', f'generate_equal({n},{num}) on operand {bits_value(bits, False)}', input={'n': n, 'num': num})
+                        break
+            except Exception as e:  # noqa: BLE001
+                ctx.violation('gadget.generate_raises', f'generate_equal({n},{num}) raised {err_name(e)}', input={'n': n, 'num': num})
     for n in (1, 2, 3):
         ctx.case(json.dumps(['generate_pairwise_xor', n])); ctx.count('generate_pairwise_xor')
         try:
